@@ -56,6 +56,7 @@ func (g *gctx) logf(format string, a ...interface{}) {
 
 // yield is a scheduling point: sleep until a seeded, unique fake instant.
 func (g *gctx) yield() {
+	rt.Tick()
 	now := time.Now().UnixNano()
 	k := int64(1 + g.rng.Intn(g.slots))
 	if g.stall > 0 && g.rng.Chance(g.stall) {
